@@ -44,7 +44,21 @@ CLAIMED = {
             "object, every argument and every default object with their pictures before the call (failures are shrunk to "
             "minimal histories); the part of each history the model speaks about is run through the native Lean model with "
             "the extracted descriptors and the aliasing / staleness / argument-change pattern must agree. Ten defects were "
-            "found this way and repaired (fixes/c19-*.diff), one is recorded as known (D31).",
+            "found this way and repaired (fixes/c19-*.diff), one is recorded as known (D31). "
+            "DEEPENED (Props/C19X.lean): the exclusion is EXACT - a site is unsafe iff its name is in d31Sites (= knownUnsafe, a "
+            "list literal of 5 names) or in contractMutators (unsafe_sites_exactly; every excluded name denotes exactly one "
+            "site, excluded_names_denote_one_site_each), the environment extracted with the D31 sites left in is NOT safe and "
+            "the D31 history (k = Key; Descriptor(key=k, taproot=True) resp. TapTree) changes the caller's object and a later "
+            "answer in the heap model (d31_sites_make_the_environment_unsafe), and with exactly those names removed no history "
+            "changes an argument and objects are independent (embit_safe_without_d31). New model Model/HeapAlias.lean for a "
+            "pattern Model/Heap.lean lacks - the CALLER edits its own argument list in place between two calls: keyed memos "
+            "whose key copies the argument's contents answer f(receiver, argument now) after every history (copying_keys_safe), "
+            "a key that is the caller's object answers from the past after an in-place edit and only then "
+            "(aliasing_key_is_stale_after_in_place_edit, aliasing_key_hits_for_a_different_argument, "
+            "aliasing_keys_safe_without_in_place_edits); the key kinds of embit's keyed memos are extracted (Gen.Alias.memoKeys: "
+            "AST of the key expression + a probe editing the caller's list and its elements in place) and all copy "
+            "(embit_memo_keys_copy, embit_keyed_memos_survive_in_place_edits); histories with `reuse` (same list objects edited "
+            "in place and handed in again) are run through the new model (memo.trace) and the staleness must agree.",
             "Trusted: Lean kernel + propext/Quot.sound/Classical.choice; the translator (its AST rules decide what counts as a "
             "hazard; anything it cannot classify is emitted as unclassified and breaks the obligation); the harness. The model "
             "is abstract (objects = lists of container cells): Script, TransactionInput/Output, EC and HD keys are treated as "
@@ -289,19 +303,43 @@ CLAIMED = {
             "assumption (named in the theorem), not proved.",
             "§5 C06"),
     "C17": ("proof",
-            "Lean 4 theorems (iterations and output size of every counted loop bounded by input length on the parser models) + runtime monitor of all parse entry points",
+            "Lean 4 theorems (counted loops and output sizes bounded by the input length on the binary parser models, Bitcoin and "
+            "Liquid; termination, linear step count and recursion depth of the descriptor/miniscript/taptree text parser; quadratic "
+            "Base58 bound; size bounds for bech32/blech32, mnemonics, shares, keys) + cost correspondence with a counting stream + "
+            "runtime monitor of all parse entry points",
             "Props/C17.lean proves on the Lean models of the parsers (tied to embit by the C03/C04/C05/C06 correspondences): all are "
             "total; whatever a count field says a counted loop body runs at most |input|+1 times and a successful parse builds at "
             "most |input| elements (transactions, witnesses, scopes, pairs); an accepted PSBT — also version 2 with attacker-chosen "
             "counts — has at most |input| scopes; taproot leaf-hash counts are bounded by the value length; the streamed previous-tx "
-            "reader does no more than the full parser. PARTIAL: CPython's real time and memory cannot be proved; they are OBSERVED on "
-            "every run: 36 public parse entry points (binary and text, incl. descriptors/miniscript, mnemonics, shares, Liquid) on "
-            "structure-aware hostile mutants and random data up to 64 KiB inside a sacrificial worker with address-space limit and "
-            "per-call timer; outcome must be value or ordinary exception within a time/peak-memory budget linear in the input size; "
-            "a crash of the worker is a failure.",
+            "reader does no more than the full parser. Props/C17X.lean proves, on the character-level models that C11/C12/C15/C16/"
+            "C18/C09-C10 tie to embit: (1) Descriptor.from_string / Miniscript.read_from / TapTree.read_from end by themselves on "
+            "EVERY text — the model's fuel |text|+1 is never the reason for a rejection (any larger fuel gives the same result) — "
+            "under the hypothesis that the key decoder refuses the empty text (true of PrivateKey.from_wif(''), checked on the real "
+            "code every run, proved for the driver's decoders; a witness shows that without it the argument loop of multi(...) "
+            "never ends); stream-method calls + recursive read_from calls <= 8|text|+22 and recursion depth <= |text|+1, where "
+            "these counts are cost companions of the model (Model/Cost.lean) that the check compares EXACTLY with a counting BytesIO "
+            "and wrapped read_from's on the real code (op c17.desc), the two proved bounds being also checked on the real counts; "
+            "(2) base58.decode <= (|s|+1)^2 steps (one per byte of the big integer touched) and <= |s| bytes, encode <= 2(|b|+2)^2 "
+            "steps and <= 2|b| characters; bech32/blech32 convertbits: |out|*tobits <= |data|*frombits + tobits (the inner while "
+            "appends one element per round; Liquid model fuel never used up); bech32_decode sizes (text <= 90 for Bitcoin); "
+            "address_to_scriptpubkey <= 34 bytes; (3) BIP39: the bit-packing loop ends within `remaining` rounds, result <= 11 bits "
+            "per word (any word list / hash); SLIP39 Share.parse: exponent < 32, value <= 10 bits per word; _crypt depends on PBKDF2 "
+            "only through iterations = 2500*2^e, dklen = len/2 (4 calls): a bounded, INPUT-CHOSEN factor (<= 2500*2^31 in the model; "
+            "CPython's hashlib refuses e >= 20); interpolate <= share length; (4) Liquid: every element reader consumes >= 1 byte, so "
+            "the four counted loops of LTransaction.read_from run <= |input|+1 times; inputs+outputs <= |bytes|; PSET scopes <= "
+            "|bytes| (also v2 counts); (5) SEC / secret / extended key / WIF payload parsers read 33|65 / 32 / 78 / 33|34 bytes. "
+            "NOT proved (GOAL lines in C17X): cost of post-processing a token once read (split/int()/unhexlify, Miniscript.verify: "
+            "structural recursions, no step companion), Python big-integer cost in Number.read_from and Share.parse (quadratic in "
+            "digits / words), single-pass loops of bech32_decode / rs1024 / word-list lookups. PARTIAL: CPython's real time and "
+            "memory cannot be proved; they are OBSERVED on every run: 36 public parse entry points (binary and text, incl. "
+            "descriptors/miniscript, mnemonics, shares, Liquid) on structure-aware hostile mutants and random data up to 64 KiB inside "
+            "a sacrificial worker with address-space limit and per-call timer; outcome must be value or ordinary exception within a "
+            "time/peak-memory budget linear in the input size; a crash of the worker is a failure. ShareSet.recover is not a monitored "
+            "entry point (its PBKDF2 time is chosen by the share's exponent: measured 85.5 s at e=15, i.e. 260 ns/iteration; e=19, the largest CPython accepts, extrapolates to ~23 min).",
             "Trusted: Lean kernel + propext/Quot.sound/Classical.choice; the monitor (tracemalloc peak, perf_counter, RLIMIT_AS); budget "
-            "constants are generous (quadratic big-integer/base58 work below 64 KiB passes by design); text parsers have no Lean "
-            "cost model.",
+            "constants are generous (quadratic big-integer/base58 work below 64 KiB passes by design); the cost companions count stream "
+            "calls and recursive calls, not CPU time; the descriptor model lets a relative seek before the start of the stream raise "
+            "where CPython's BytesIO clamps to 0 (texts 'tr(' and 'sh(' only, rejected either way; excluded from the exact comparison).",
             "§5 C17"),
     "C13": ("proof",
             "Lean 4 theorems (typing judgement, script template and length, all expression trees by structural induction) "
@@ -321,13 +359,27 @@ CLAIMED = {
             "fixes (fixes/*.diff: D17-D22); theorems old_* show that each old rule violated the table. The tie to /repo: generated "
             "trees are printed as descriptor text for embit's real parser and as tokens for the native Lean driver; accept/reject, "
             "type, properties, compile() and len() are diffed against the model, and embit is compared directly with the "
-            "executable spec (accept iff well-typed, script = template, len = compiled length = template length).",
+            "executable spec (accept iff well-typed, script = template, len = compiled length = template length). "
+            "DEEPENED (Props/C13X.lean): the context rules hold at depth (multi_family_fits_context, wellTyped_multi_family: an "
+            "expression accepted / well-typed in tapscript mentions multi/sortedmulti nowhere, one in P2WSH multi_a/"
+            "sortedmulti_a nowhere); the side conditions argsOk / lensOk are discharged for accepted expressions from the SHAPE of "
+            "the arguments the parser produces in the context (Ms.parserArgs: SEC keys, compressed or uncompressed in any "
+            "mixture, in P2WSH; 32-byte x-only keys in tapscript; 20-byte key hashes; 32/20-byte digests): "
+            "accepted_compiles_to_template / wellTyped_compiles_to_template state compile = template and len = compiled "
+            "length = template length for both contexts with no further hypothesis; the equal-length condition on sortedmulti* "
+            "keys is replaced by the exact one (sorting pushes = sorting keys on these keys, compile_eq_template_exact), "
+            "which valid SEC keys of mixed length satisfy, with a witness that it is needed for byte strings that are not keys "
+            "(sortedmulti_orders_pushes_not_keys). The check evaluates Ms.parserArgs / argsOkW on every accepted case "
+            "(ms.parserargs) and has directed sortedmulti cases over mixed compressed / uncompressed keys.",
             "Trusted: Lean kernel + propext/Quot.sound/Classical.choice; the transcription of the miniscript tables in "
             "Spec/MiniscriptSpec.lean; the Python harness (tree printers, key payloads computed with hashlib). Keys are abstract "
             "byte strings in the theorems; key / xpub / checksum parsing is C12's subject. compile_eq_template assumes pushed "
             "keys/hashes < 76 bytes, thresh k < 2^256 and equal-length keys inside sortedmulti*; len_eq_compiled assumes hash "
-            "arguments of the parsed length and non-empty thresh/multi_a (compile() raises there). Only the type system named in "
-            "the property is covered (B/V/K/W, z/o/n/d/u): malleability, timelock mixing and resource limits are not.",
+            "arguments of the parsed length and non-empty thresh/multi_a (compile() raises there); the C13X end-to-end theorems "
+            "assume only Ms.parserArgs (argument shapes; that the parser produces them is corresponded, not proved) and thresh "
+            "k < 2^256. Only the type system named in the property is covered (B/V/K/W, z/o/n/d/u): script size / opcode / stack "
+            "limits, timelock mixing, duplicate keys and malleability are neither in the property text nor checked by embit, "
+            "and are not modelled.",
             "§5 C13"),
     "C15": ("proof",
             "Lean 4 theorems (mnemonic_to_bytes = BIP39 decoding, mnemonic_from_bytes = BIP39 encoding, both round trips, "
@@ -642,7 +694,26 @@ CLAIMED = {
         "blinded outputs, PSET blinding, on thread-private inputs: one preemption of thread 0 at EVERY traced line (sweeps) "
         "and seeded samples with 2-3 preemptions among 3 threads; each thread's results are compared with the serial run "
         "and, for direct binding calls, with the Lean model's prediction for the same schedule (lock.run); every native "
-        "call observed must be under the lock. Not covered by anything: data races inside C when the lock is missing "
+        "call observed must be under the lock. "
+        "DEEPENED (Props/C20X.lean, C20XFacts.lean): FAIRNESS - a schedule is W-fair when in every window of W ticks every "
+        "thread still unfinished at the end of the window has been scheduled (a tick spent blocked in front of acquire counts "
+        "as scheduled, not as progress); every W-fair schedule of at least W * totalTicks ticks (totalTicks = length of the "
+        "serial schedule, a native call counting two) completes and gives the serial results, for all thread counts and "
+        "program lengths (fair_completes, fair_serialisable), also for infinite schedules (fair_infinite_completes) and round "
+        "robin (round_robin_completes); a schedule that starves the lock holder never completes "
+        "(starved_holder_never_completes). FINER MACHINE (Model/LockCtx.lean): the library context has contents (two words "
+        "that must match), every native call reads it non-atomically, context writers (the API functions with a non-const "
+        "context parameter: context_create / context_randomize ...) rewrite it non-atomically; properly locked programs "
+        "still get the serial results after every schedule, the context is consistent whenever no call is in flight, fair "
+        "schedules complete (ctx_results_prefix, ctx_serialisable, ctx_consistent, ctx_fair_completes - by a simulation "
+        "with the coarse machine); witnesses: one unlocked context writer makes a properly locked reader return garbage, "
+        "two unlocked writers leave the context torn for ever, overlapping unlocked readers are harmless in this machine. "
+        "Facts: context_writers_locked / context_writers_present (decide over the probed table), "
+        "binding_ctx_serialisable, binding_round_robin_completes. Tie: every schedule sent to lock.run is also sent to "
+        "lockctx.run; the set of probed functions that WRITE the context by symbol (lockctx.writers: <import>, _init, "
+        "context_randomize) is compared with a behavioural probe that snapshots the memory of the context object "
+        "(secp256k1_context_preallocated_size bytes) before and after each probed call. "
+        "Not covered by anything: data races inside C when the lock is missing "
         "(only the missing lock itself is reported), preemption inside a bytecode line, MicroPython.",
         "Trusted: Lean kernel + propext/Quot.sound/Classical.choice; harness/bindprobe.py (recording lock and library proxy, "
         "write detection by snapshots, origin classification) and harness/sched.py (settrace scheduler); CPython, ctypes, "
